@@ -15,18 +15,19 @@ import numpy as np
 
 from .. import models
 from ..core import RunResult, adigest, mix
+from ..driver import pristine_library_state
 from .hist_common import SAME, TAU, call_value, quiet, with_entropy
 
 NAME = "B"
 PROPERTY = "C07"
 RUNS = {"quick": 160, "thorough": 4000}
 RUN_WALL_CAP = 240.0
-REQUIRED_PROBES = {"quick": ["three_distinct_methods", "method_repeated", "lower_bound_obtained", "two_lower_bounds_different_entropy", "npa_obtained", "reps2_game", "bcs_game", "unequal_alphabets", "value_strictly_inside"], "thorough": ["three_distinct_methods", "method_repeated", "lower_bound_obtained", "two_lower_bounds_different_entropy", "npa_obtained", "npa2_obtained", "reps2_game", "bcs_game", "unequal_alphabets", "value_strictly_inside"]}
+REQUIRED_PROBES = {"quick": ["three_distinct_methods", "method_repeated", "lower_bound_obtained", "two_lower_bounds_different_entropy", "npa_obtained", "reps2_game", "bcs_game", "unequal_alphabets", "value_strictly_inside", "two_objects_same_shape"], "thorough": ["three_distinct_methods", "method_repeated", "lower_bound_obtained", "two_lower_bounds_different_entropy", "npa_obtained", "npa2_obtained", "reps2_game", "bcs_game", "unequal_alphabets", "value_strictly_inside", "two_objects_same_shape"]}
 COMPONENTS = {"real": ["toqito.nonlocal_games.NonlocalGame (constructor, from_bcs_game, classical_value, nonsignaling_value, commuting_measurement_value_upper_bound, quantum_value_lower_bound)", "toqito.helper.npa_constraints / update_odometer", "toqito.matrix_ops.tensor", "toqito.rand.random_povm", "cvxpy + SCS/Clarabel"], "stub": ["OS entropy for the see-saw start (numpy.random.bit_generator.randbits -> choice source)"]}
-RULE = ("one run = one game object (1..3 answers x 1..3 questions per player, unequal allowed; reps 2 for <=2x2x2x2; or from_bcs_game with 1..3 constraints over 2..3 variables) and 3..8 value-method calls "
+RULE = ("one run = one or two game objects of the same shape and different contents (1..3 answers x 1..3 questions per player, unequal allowed; reps 2 for <=2x2x2x2; or from_bcs_game with 1..3 constraints over 2..3 variables) and 3..8 value-method calls "
         "in seeded order with repetition (classical, non-signaling, NPA level 1 / '1+ab' / 2, see-saw lower bound under seeded entropy); non-trivial = >=2 distinct methods, at least one repeated, "
         "some value strictly between 0 and 1; distinct = distinct digest of (game, operation sequence, entropy values)")
-SHRINK_ORDER = ["config", "game", "ops"]
+SHRINK_ORDER = ["config", "game", "ops"]  # "game:2", "ops:which" sort after these
 
 
 def _mod():
@@ -45,12 +46,14 @@ def preload():
 # workload
 # ----------------------------------------------------------------------------
 
-def draw_tensor_game(st, max_out=3, max_in=3):
+def draw_tensor_game(st, max_out=3, max_in=3, like=None):
     # bias towards games that are not trivially won: mostly >= 2 answers and >= 2 questions
     outs = [(2, 5), (3, 3), (1, 1)] if max_out >= 3 else [(2, 5), (1, 1)]
     ins = [(2, 4), (3, 3), (1, 2)] if max_in >= 3 else [(2, 4), (1, 2)]
     a_out, b_out = st.weighted(outs), st.weighted(outs)
     a_in, b_in = st.weighted(ins), st.weighted(ins)
+    if like is not None:
+        a_out, b_out, a_in, b_in = like["shape"]
     rng = st.nprng()
     shape = (a_out, b_out, a_in, b_in)
     pk = st.weighted([("binary", 4), ("fractional", 3), ("sparse_binary", 2), ("functional", 3)])
@@ -80,9 +83,11 @@ def draw_tensor_game(st, max_out=3, max_in=3):
     return prob, pred, {"kind": "tensor", "shape": list(shape), "pred_kind": pk, "prob_kind": qk}
 
 
-def draw_bcs(st):
+def draw_bcs(st, like=None):
     nvars = st.int_range(2, 3)
     ncons = st.int_range(1, 3)
+    if like is not None:
+        nvars, ncons = like["variables"], like["constraints"]
     rng = st.nprng()
     cons = []
     for _ in range(ncons):
@@ -174,6 +179,60 @@ def opkey(op):
 # the run
 # ----------------------------------------------------------------------------
 
+class Subject:
+    """One game object of the history with its shadows and reference models."""
+
+
+def make_subject(M, res, kind, gs, like=None):
+    sub = Subject()
+    sub.kind, sub.reps = kind, 1
+    if kind == "bcs":
+        sub.base_cons, sub.meta = draw_bcs(gs, like=like)
+        sub.exp_prob, sub.exp_pred = bcs_model(sub.base_cons)
+    else:
+        if kind == "reps2":
+            sub.base_prob, sub.base_pred, sub.meta = draw_tensor_game(gs, 2, 2, like=like)
+            sub.reps = 2
+            sub.meta["reps"] = 2
+        else:
+            sub.base_prob, sub.base_pred, sub.meta = draw_tensor_game(gs, like=like)
+        sub.exp_prob, sub.exp_pred = models.product_game(sub.base_prob, sub.base_pred, sub.reps)
+
+    def build():
+        """Fresh object from fresh copies of the generated data."""
+        if kind == "bcs":
+            cons = [c.copy() for c in sub.base_cons]
+            return M.NonlocalGame.from_bcs_game(cons, 1), cons
+        p, v = sub.base_prob.copy(), sub.base_pred.copy()
+        return M.NonlocalGame(p, v, sub.reps), (p, v)
+
+    sub.build = build
+    try:
+        sub.game, sub.caller = build()
+    except Exception as e:
+        res.violate("C07.ctor.reps" if kind != "bcs" else "C07.ctor.bcs", why="constructor raised on a valid game", exc=type(e).__name__, msg=str(e)[:200], **_pub(sub.meta))
+        return None
+    sub.shape = tuple(int(x) for x in np.shape(sub.game.pred_mat))
+    sub.meta["game_shape"] = list(sub.shape)
+    # constructor clauses (workload invariants)
+    res.checks_workload += 1
+    inv = "C07.ctor.bcs" if kind == "bcs" else "C07.ctor.reps"
+    g = sub.game
+    if np.shape(g.prob_mat) != sub.exp_prob.shape or np.shape(g.pred_mat) != sub.exp_pred.shape or not np.allclose(g.prob_mat, sub.exp_prob, atol=1e-12) or not np.allclose(g.pred_mat, sub.exp_pred, atol=1e-12):
+        res.violate(inv, why="stored tensors differ from the %s" % ("BCS definition" if kind == "bcs" else "r-fold product formula"), **_pub(sub.meta))
+        return None
+    sub.shadow_prob, sub.shadow_pred = np.array(g.prob_mat, copy=True), np.array(g.pred_mat, copy=True)
+    sub.shadow_caller = [np.array(c, copy=True) for c in sub.caller]
+    sub.cl_model = models.classical_value_bf(sub.exp_prob, sub.exp_pred)
+    sub.ns_model = None
+    sub.pristine, sub.values, sub.used = {}, [], False
+    return sub
+
+
+def _pub(meta):
+    return {k: v for k, v in meta.items() if not k.startswith("_")}
+
+
 def run(cs, tier, run_index):
     quiet()
     res = RunResult()
@@ -184,116 +243,102 @@ def run(cs, tier, run_index):
         kind = "bcs"
     elif run_index % 8 == 6:
         kind = "reps2"
-    gs = cs.s("game")
-
-    def build():
-        """Fresh object from fresh copies of the generated data."""
-        if kind == "bcs":
-            cons = [c.copy() for c in base_cons]
-            return M.NonlocalGame.from_bcs_game(cons, 1), cons
-        p, v = base_prob.copy(), base_pred.copy()
-        return M.NonlocalGame(p, v, reps), (p, v)
-
-    reps = 1
-    if kind == "bcs":
-        base_cons, meta = draw_bcs(gs)
-        exp_prob, exp_pred = bcs_model(base_cons)
-        res.probe("bcs_game")
-    else:
-        if kind == "reps2":
-            base_prob, base_pred, meta = draw_tensor_game(gs, 2, 2)
-            reps = 2
-            meta["reps"] = 2
-            res.probe("reps2_game")
-        else:
-            base_prob, base_pred, meta = draw_tensor_game(gs)
-        exp_prob, exp_pred = models.product_game(base_prob, base_pred, reps)
-    try:
-        game, caller = build()
-    except Exception as e:
-        res.violate("C07.ctor.reps" if kind != "bcs" else "C07.ctor.bcs", why="constructor raised on a valid game", exc=type(e).__name__, msg=str(e)[:200], **meta)
+    # one or two game objects of the same shape and different contents live in the same history:
+    # anything the library keeps between calls (a cache keyed on shape, say) meets a different game
+    two = cfg.draw(3) == 2 or run_index % 8 == 7
+    subs = [make_subject(M, res, kind, cs.s("game"))]
+    if subs[0] is None:
         return res
-    shape = tuple(int(s) for s in np.shape(game.pred_mat))
-    meta["game_shape"] = list(shape)
+    if two:
+        s2 = make_subject(M, res, kind, cs.s("game:2"), like=subs[0].meta)
+        if s2 is None:
+            return res
+        subs.append(s2)
+        res.probe("two_objects_same_shape")
+    res.probe({"bcs": "bcs_game", "reps2": "reps2_game", "tensor": "tensor_game"}[kind])
+    shape = subs[0].shape
     if len(shape) == 4 and shape[0] != shape[1]:
         res.probe("unequal_alphabets")
 
-    # constructor clauses (workload invariants)
-    res.checks_workload += 1
-    inv = "C07.ctor.bcs" if kind == "bcs" else "C07.ctor.reps"
-    if np.shape(game.prob_mat) != exp_prob.shape or np.shape(game.pred_mat) != exp_pred.shape or not np.allclose(game.prob_mat, exp_prob, atol=1e-12) or not np.allclose(game.pred_mat, exp_pred, atol=1e-12):
-        res.violate(inv, why="stored tensors differ from the %s" % ("BCS definition" if kind == "bcs" else "r-fold product formula"), **meta)
-        return res
-    shadow_prob, shadow_pred = np.array(game.prob_mat, copy=True), np.array(game.pred_mat, copy=True)
-    shadow_caller = [np.array(c, copy=True) for c in caller]
-
     ops = draw_ops(cs.s("ops"), shape, tier)
-    pristine = {}
-    values = []  # (op name, value, where)
-    cl_model = models.classical_value_bf(exp_prob, exp_pred)
-    ns_model = None
+    ws = cs.s("ops:which")
     methods_seen = []
     for k, op in enumerate(ops):
+        si = ws.draw(len(subs)) if len(subs) > 1 else 0
+        sub = subs[si]
+        sub.used = True
+        meta = dict(_pub(sub.meta), object_index=si, objects=len(subs))
         key = opkey(op)
         ent = op.get("entropy", 0)
         with with_entropy(ent):
-            out = call_value(apply(game, op), res, op["op"])
-        res.log.add("op", k, key, out[1] if out[0] == "ok" else out[:2])
+            out = call_value(apply(sub.game, op), res, op["op"])
+        res.log.add("op", k, si, key, out[1] if out[0] == "ok" else out[:2])
         methods_seen.append(op["op"])
-        # (i) object unchanged
+        hist = [o["op"] for o in ops[:k + 1]]
+        # (i) no object of the history has changed
         res.checks_sim += 1
-        changed = state_changed(game, caller, shadow_prob, shadow_pred, shadow_caller)
+        changed = None
+        for sj, other in enumerate(subs):
+            changed = state_changed(other.game, other.caller, other.shadow_prob, other.shadow_pred, other.shadow_caller)
+            if changed:
+                res.violate("C07.hist.state", why=changed + ("" if sj == si else " (of the OTHER game object)"), after=op["op"], position=k, history=hist, **meta)
+                break
         if changed:
-            res.violate("C07.hist.state", why=changed, after=op["op"], position=k, history=[o["op"] for o in ops[:k + 1]], **meta)
             break
         if out[0] != "ok":
             continue
         v = out[1]
-        # (ii) same as on a pristine object
+        # (ii) same as on a pristine object in a pristine library
         if k == 0:
-            pristine[key] = v
+            sub.pristine[key] = v
         else:
-            if key not in pristine:
-                g2, _ = build()
-                with with_entropy(ent):
-                    o2 = call_value(apply(g2, op), res, op["op"] + "(pristine)")
-                pristine[key] = o2[1] if o2[0] == "ok" else None
-                res.log.add("pristine", key, pristine[key])
-            if pristine[key] is not None:
+            if key not in sub.pristine:
+                with pristine_library_state():
+                    g2, _ = sub.build()
+                    with with_entropy(ent):
+                        o2 = call_value(apply(g2, op), res, op["op"] + "(pristine)")
+                sub.pristine[key] = o2[1] if o2[0] == "ok" else None
+                res.log.add("pristine", si, key, sub.pristine[key])
+            if sub.pristine[key] is not None:
                 res.checks_sim += 1
-                if abs(pristine[key] - v) > SAME:
-                    res.violate("C07.hist.order", op=op["op"], position=k, history=[o["op"] for o in ops[:k + 1]], after_history=v, pristine=pristine[key], **meta)
+                if abs(sub.pristine[key] - v) > SAME:
+                    res.violate("C07.hist.order", op=op["op"], position=k, history=hist, after_history=v, pristine=sub.pristine[key], **meta)
         # (iii) / (iv) reference models
         if op["op"] == "classical":
             res.checks_workload += 1
-            if abs(v - cl_model) > 1e-9:
-                res.violate("C07.val.classical", got=v, expected=cl_model, position=k, **meta)
+            if abs(v - sub.cl_model) > 1e-9:
+                res.violate("C07.val.classical", got=v, expected=sub.cl_model, position=k, **meta)
         if op["op"] == "nonsignaling":
-            if ns_model is None:
-                ns_model = models.nonsignaling_value_lp(exp_prob, exp_pred)
-            if ns_model is not None:
+            if sub.ns_model is None:
+                sub.ns_model = models.nonsignaling_value_lp(sub.exp_prob, sub.exp_pred)
+            if sub.ns_model is not None:
                 res.checks_workload += 1
-                if abs(v - ns_model) > TAU:
-                    res.violate("C07.val.ns", got=v, expected=ns_model, position=k, **meta)
-        values.append((op["op"], v, k, ent))
-        if pristine.get(key) is not None and k > 0:
-            values.append((op["op"], pristine[key], -1, ent))
+                if abs(v - sub.ns_model) > TAU:
+                    res.violate("C07.val.ns", got=v, expected=sub.ns_model, position=k, **meta)
+        sub.values.append((op["op"], v, k, ent))
+        if sub.pristine.get(key) is not None and k > 0:
+            sub.values.append((op["op"], sub.pristine[key], -1, ent))
 
-    # (v) ordering chain over everything seen in this run
-    vals = {}
-    for name, v, k, ent in values:
-        vals.setdefault(name, []).append(v)
-    vals.setdefault("classical", []).append(cl_model)
-    check_chain(res, vals, meta)
-
-    lbs = set(e for (n, v, k, e) in values if n == "lower_bound")
+    # (v) ordering chain over everything seen for each object
+    all_vals, lbs = {}, set()
+    for si, sub in enumerate(subs):
+        if not sub.used:
+            continue
+        vals = {}
+        for name, v, k, ent in sub.values:
+            vals.setdefault(name, []).append(v)
+            all_vals.setdefault(name, []).append(v)
+            if name == "lower_bound":
+                lbs.add((si, ent))
+        vals.setdefault("classical", []).append(sub.cl_model)
+        check_chain(res, vals, dict(_pub(sub.meta), object_index=si, objects=len(subs)))
     if lbs:
         res.probe("lower_bound_obtained")
     if len(lbs) >= 2:
         res.probe("two_lower_bounds_different_entropy")
-    if any(n.startswith("npa") for n in vals):
+    if any(n.startswith("npa") for n in all_vals):
         res.probe("npa_obtained")
-    if "npa2" in vals:
+    if "npa2" in all_vals:
         res.probe("npa2_obtained")
     distinct = set(methods_seen)
     if len(distinct) >= 3:
@@ -301,12 +346,12 @@ def run(cs, tier, run_index):
     repeated = len(methods_seen) > len(distinct)
     if repeated:
         res.probe("method_repeated")
-    inside = any(1e-6 < v < 1 - 1e-6 for lst in vals.values() for v in lst)
+    inside = any(1e-6 < v < 1 - 1e-6 for lst in all_vals.values() for v in lst)
     if inside:
         res.probe("value_strictly_inside")
     res.nontrivial = len(distinct) >= 2 and repeated and inside
-    res.case_key = "%016x" % mix(adigest(exp_prob), adigest(exp_pred), json.dumps(ops, sort_keys=True))
-    res.sample = {"game": meta, "ops": ops, "values": [(n, round(v, 6), k) for (n, v, k, e) in values][:16], "classical_model": cl_model}
+    res.case_key = "%016x" % mix([adigest(x.exp_prob) + adigest(x.exp_pred) for x in subs], json.dumps(ops, sort_keys=True), tuple(ws.taken))
+    res.sample = {"games": [_pub(x.meta) for x in subs], "ops": ops, "object_of_op": list(ws.taken), "values": [[(n, round(v, 6), k) for (n, v, k, e) in x.values][:12] for x in subs], "classical_models": [x.cl_model for x in subs]}
     return res
 
 
